@@ -6,6 +6,7 @@ import (
 	"encoding/gob"
 	"fmt"
 	"log"
+	"os"
 	"sort"
 	"strings"
 	"time"
@@ -445,6 +446,7 @@ func (e *Env) CheckStructure(closed bool) *Violation {
 		return nil
 	}
 	if len(wal) != len(e.Model.M) {
+		debugSegments(files)
 		return violf("wal-vs-model", "log replay yields %d keys, model has %d", len(wal), len(e.Model.M))
 	}
 	for k, v := range wal {
@@ -501,4 +503,23 @@ func (e *Env) verifyBackup(dir string) *Violation {
 	}
 	e.Probes["backup_verified"]++
 	return nil
+}
+
+func debugSegments(files map[string][]byte) {
+	if os.Getenv("VERIF_DEBUG") == "" {
+		return
+	}
+	segs, _ := ListSegments(files, dbDir)
+	for _, sn := range segs {
+		recs, vl, why := DecodeSegment(files[sn.Path])
+		fmt.Printf("DEBUG segment %+v len=%d valid=%d %s\n", sn, len(files[sn.Path]), vl, why)
+		for _, r := range recs {
+			fmt.Printf("DEBUG    off=%d del=%v key=%x vlen=%d\n", r.Off, r.Delete, r.Key, len(r.Value))
+		}
+	}
+	for n, b := range files {
+		if strings.HasSuffix(n, ".pmt") {
+			fmt.Printf("DEBUG meta %s %d bytes\n", n, len(b))
+		}
+	}
 }
